@@ -105,5 +105,9 @@ pub fn run(cfg: &RunCfg) -> i32 {
         opts(),
         classify,
     );
+    if !check.has_violation() {
+        check.assume("wire part: a release by a client that is only waiting (the server cancels its wait) is not generated, as in the core parts; a harness-side answer timeout is inconclusive");
+        super::c07w::lock_part(&mut check, cfg);
+    }
     check.finish()
 }
